@@ -115,6 +115,7 @@ class C12(Scenario):
             # algorithm-heavy (earlier, unrelated work in the same process)
             cfg["global_measure_p"] = 0.9
             cfg["n_forms"] = rng.randint(1, 2)
+            cfg["n_derived"] = rng.randint(2, 5)
         elif arm == "deep":
             cfg["depth"] = rng.choice([4, 5])
             cfg["n_forms"] = rng.randint(2, 4)
@@ -249,7 +250,7 @@ class C12(Scenario):
                 out = out[:first_obs] + tail + out[first_obs:]
             units = out
         # second build in the same process
-        if arm == "warm" or rng.random() < 0.2:
+        if arm in ("warm", "shared-measure") or rng.random() < 0.3:
             units.append({"k": "again", "n": rng.randrange(len(nodes))})
         return {"nodes": nodes, "units": units}
 
